@@ -1,6 +1,6 @@
 """C10 — UDP datagram fidelity and session isolation (the accept step of the reverse UDP listener)."""
 import harness
-from specs import udp
+from specs import udp, codec
 
 
 def run(ck):
@@ -9,7 +9,10 @@ def run(ck):
     import contracts_async  # noqa
     ck.assumptions += ['every await completes; the session table (CHashMap) and the mpsc channel behave as a map / a FIFO',
                        'Frame::recv_from yields one whole datagram and its source address']
-    ck.out_of_scope += ['SOCKS5 UDP associate, UDP over HTTP/QUIC hops, QUIC datagrams (socket-driven loops across tasks)', 'reply path and labelling of replies',
+    ck.out_of_scope += ['SOCKS5 UDP associate, QUIC datagrams, session tables of the HTTP/QUIC hops (socket-driven loops across tasks); the frame reader of the inline stream hop IS included', 'reply path and labelling of replies',
                         'payloads larger than one QUIC packet (C11 decides fragmentation)', 'tproxy UDP accept (recvmsg ancillary data)']
     udp.spec_reverse_udp_accept(ck)
-    ck.post_filter = lambda o: o.label.startswith('C10/') or o.status in ('undecided', 'vacuous', 'inconclusive')
+    # datagrams carried inline over a stream hop (HTTP / QUIC): each frame comes out once, whole, whatever the segmentation
+    ck.plans.append(codec.replay_plan)
+    codec.spec_stream_frame_reader(ck, nreads=3 if ck.tier == 'quick' else 5)
+    ck.post_filter = lambda o: o.label.startswith(('C10/', 'C12/stream-frames/')) or o.status in ('undecided', 'vacuous', 'inconclusive')
